@@ -584,6 +584,39 @@ func lanesWord(w *World, r *Report, h *pktHeader) {
 		return
 	}
 	fields := h.fields()
+	// the word is the local handed to the first binary.Write (encoder) / filled by the first binary.Read
+	// (decoder), whatever it is called; the name in the layout table is only the fall-back
+	encLocal, decLocal := h.Local, h.Local
+	firstBinaryArg := func(fi *FuncInfo, fn string) string {
+		name := ""
+		ast.Inspect(fi.Decl.Body, func(n ast.Node) bool {
+			c, ok := n.(*ast.CallExpr)
+			if !ok || name != "" || len(c.Args) != 3 {
+				return name == ""
+			}
+			f := w.calleeOf(fi.Pkg.TypesInfo, c)
+			if f == nil || f.Pkg() == nil || f.Pkg().Path() != "encoding/binary" || f.Name() != fn {
+				return true
+			}
+			a := unparen(c.Args[2])
+			if u, ok := a.(*ast.UnaryExpr); ok && u.Op == token.AND {
+				a = unparen(u.X)
+			}
+			if id, ok := a.(*ast.Ident); ok {
+				if _, isVar := fi.Pkg.TypesInfo.Uses[id].(*types.Var); isVar {
+					name = id.Name
+				}
+			}
+			return false
+		})
+		return name
+	}
+	if n := firstBinaryArg(enc, "Write"); n != "" {
+		encLocal = n
+	}
+	if n := firstBinaryArg(dec, "Read"); n != "" {
+		decLocal = n
+	}
 	{
 		ctx := newBvCtx()
 		recv, sub := declaredRecv(w, enc, h, ctx)
@@ -593,9 +626,9 @@ func lanesWord(w *World, r *Report, h *pktHeader) {
 		var bad, und []string
 		n := 0
 		for _, p := range paths {
-			v := p.Locals[h.Local]
+			v := p.Locals[encLocal]
 			if v == nil || !v.isInt() || v.BV.W != h.Bits {
-				und = append(und, fmt.Sprintf("on path [%s] the packed word %s is not a %d-bit value the engine can follow", pathName(p), h.Local, h.Bits))
+				und = append(und, fmt.Sprintf("on path [%s] the packed word %s is not a %d-bit value the engine can follow", pathName(p), encLocal, h.Bits))
 				continue
 			}
 			n++
@@ -624,7 +657,7 @@ func lanesWord(w *World, r *Report, h *pktHeader) {
 			}
 			r.Fail(VUndecided, "word", h.Kind, "pack", pos, summarise(und))
 		default:
-			r.OK("word", h.Kind, "pack", pos, fmt.Sprintf("%s = %s on all %d paths — %s", h.Local, "type<<9 | length", n, h.Cite), true)
+			r.OK("word", h.Kind, "pack", pos, fmt.Sprintf("%s = %s on all %d paths — %s", encLocal, "type<<9 | length", n, h.Cite), true)
 		}
 	}
 	{
@@ -649,9 +682,9 @@ func lanesWord(w *World, r *Report, h *pktHeader) {
 			if !all {
 				continue // a path that stops before the word was unpacked (read error)
 			}
-			wv := p.Locals[h.Local]
+			wv := p.Locals[decLocal]
 			if wv == nil || !wv.isInt() {
-				und = append(und, "the word "+h.Local+" is not an integer the engine can follow")
+				und = append(und, "the word "+decLocal+" is not an integer the engine can follow")
 				continue
 			}
 			n++
